@@ -9,7 +9,7 @@
    DEFINITION the ordered product  exp(-i H_{N-2} dt_{N-2}) ... exp(-i H_0 dt_0); so "the analytic
    evolution is the time-ordered propagator of H(t)" reduces to: the list of (dt_n, H_n) that the code
    exponentiates, in loop order, satisfies `slices_ok` below.  (expm itself is external.) *)
-From Coq Require Import String.
+From Coq Require Import String Ascii.
 From Coq Require Import List QArith Bool Arith.
 From QV Require Import Model.Fill.
 Import ListNotations.
@@ -125,3 +125,15 @@ Section HamSlices.
 End HamSlices.
 
 Definition total_time (sl : list (Q * list Q)) : Q := fold_right Qplus 0 (map fst sl).
+
+(* side conditions of the save/reload round trip: at least one label, no ';' inside a label, at least
+   one time point, one coefficient row per label, every row as long as the time list *)
+Fixpoint nosemib (s : string) : bool :=
+  match s with
+  | EmptyString => true
+  | String c s' => negb (Ascii.eqb c ";"%char) && nosemib s'
+  end.
+Definition file_okb (labels : list string) (full : list Q) (rows : list (list Q)) : bool :=
+  negb (match labels with [] => true | _ => false end) && forallb nosemib labels
+  && (1 <=? length full)%nat && (length labels =? length rows)%nat
+  && forallb (fun r => (length r =? length full)%nat) rows.
